@@ -38,6 +38,13 @@ QUICK = [
     # also right after an interrupted evaluation
     ("names3", "explore", ["exh", "n=3", "conv=names", "multi=1", "levels=-/dbrf1/dbrx", "steps=0"],
      {"C01", "C03", "C04", "C09", "C18"}, True, None),
+    # regression shapes (harness/shapes.txt): graphs on which a known defect or a seeded change needed
+    # something specific; every schedule, every single failure, every abort point, chains of three
+    ("shapes", "explore", ["shapes", "levels=f1a/dbf1a/db", "steps=0", "maxstates=3000"],
+     TRACEP - {"C14", "C15", "C16", "C20"}, False, None),
+    ("shapesst", "explore", ["shapes", "cmp=both", "levels=f1/dbf1/-", "paths=4", "steps=0"], {"C15", "C16"}, False, None),
+    ("shapesfl", "explore", ["shapes", "cmp=both", "levels=-/bdk/-", "paths=4", "steps=0"], {"C16"}, False, None),
+    ("shapesdc", "explore", ["shapes", "levels=p4/dbp4", "paths=4", "steps=0"], {"C14"}, False, None),
     ("big", "big", ["sizes=12,24,48,120,1200", "full=12"], {"C19"}, False, BIGPROPS),
 ]
 
@@ -60,6 +67,11 @@ THOROUGH = [
      {"C01", "C03", "C04", "C06", "C08", "C09", "C11", "C12", "C18"}, True, None),
     ("names4", "explore", ["exh", "n=4", "conv=names", "multi=1", "filter=eph2", "levels=-/dbrf1/rx", "paths=2", "steps=0"],
      {"C01", "C03", "C04", "C09", "C18"}, False, None),
+    ("shapes", "explore", ["shapes", "levels=f1a/dbnef1a/dbf1", "steps=0", "maxstates=6000", "double=1"],
+     TRACEP - {"C14", "C15", "C16", "C20"}, False, None),
+    ("shapesst", "explore", ["shapes", "cmp=both", "levels=f1a/dbf1a/db", "steps=0", "maxstates=3000"], {"C15", "C16"}, False, None),
+    ("shapesfl", "explore", ["shapes", "cmp=both", "levels=-/bdkf1/k", "steps=0", "maxstates=3000"], {"C16"}, False, None),
+    ("shapesdc", "explore", ["shapes", "levels=p9/dbp9", "steps=0", "maxstates=3000"], {"C14"}, False, None),
     ("big", "big", ["sizes=12,24,48,120,1200,12000", "full=48"], {"C19"}, False, BIGPROPS),
 ]
 
